@@ -142,7 +142,10 @@ def ack(req_bytes, err=0, portid=None):
     ln, typ, flags, seq, pid = struct.unpack_from('<IHHII', hdr, 0)
     if portid is not None:
         pid = portid
-    return struct.pack('<IHHII', 36, NLMSG_ERROR, 0, seq, pid) + struct.pack('<i', -err) + hdr
+    # netlink_ack(): an error carries the whole offending request after the error code, a plain acknowledgement only
+    # its header
+    echo = bytes(req_bytes) if err and len(req_bytes) >= 16 else hdr
+    return struct.pack('<IHHII', 20 + len(echo), NLMSG_ERROR, 0, seq, pid) + struct.pack('<i', -err) + echo
 
 
 # ---- encoders for kernel -> daemon events (layout from the UAPI headers)
